@@ -331,13 +331,54 @@ func c09chains(depth int, f func(name string, t *T)) {
 	rec(depth, "", func(t *T) *T { return t })
 }
 
+// c09callers: the tail-recursive function declared by defn and by the typed (func ...) form, called from inside other
+// functions whose own parameters and locals carry the same names: the caller's variables are untouched by the callee's
+// jumps and the value is the closed form.
+func c09callers(c *engine.Ctx, only string) {
+	ctxs := [][2]string{{"direct", "$1"}, {"cond-default", "(cond (== n -1) 0 $1)"}, {"cond-first", "(cond (> n 0) $1 0)"}, {"begin", "(begin (t n n) $1)"}, {"let", "(let [q n] $1)"},
+		{"letseq", "(letseq [q n r q] $1)"}, {"newScope", "(newScope $1)"}, {"and", "(and true $1)"}, {"or", "(or false $1)"}, {"let>newScope", "(let [q n] (newScope $1))"}}
+	decls := [][2]string{{"defn", "(defn f [n acc] BODY)"}, {"func-typed", "(func f [n:int64 acc:int64] [r:int64] BODY)"}, {"func-typed-return", "(func f [n:int64 acc:int64] [r:int64] (return BODY))"},
+		{"defn-in-fn", "(defn mk [] (defn f [n acc] BODY) f) (def f (mk))"}}
+	for _, k := range c09kinds() {
+		if !k.sum || k.params != "[n acc]" {
+			continue
+		}
+		for _, cx := range ctxs {
+			for _, d := range decls {
+				w := "CALLER|" + k.name + "|" + cx[0] + "|" + d[0]
+				if !(only == "" && c.Mine() || only == w) {
+					continue
+				}
+				c.Begin(w)
+				body := "(cond (== n 0) acc " + strings.Replace(cx[1], "$1", k.call, 1) + ")"
+				text := strings.Replace(d[1], "BODY", body, 1) +
+					" (defn caller [n acc] (def r (f 3 0)) (list n acc r)) (defn caller2 [n] (let [r (f 3 0)] (+ n r))) (defn caller3 [n acc] (+ n (f 3 acc)))" +
+					" (list (caller 10 20) (caller2 10) (f 4 0) (caller3 10 1))"
+				tr := zy.NewTraced(true)
+				zygo.VerifSetStepBudget(500000)
+				tr.Run(layout(c09prelude(), 0))
+				r := tr.Run(text)
+				dp := tr.Env.VerifDepths()
+				tr.Env.Close()
+				const want = "((10 20 6) 16 10 17)"
+				if r.Short() != want {
+					c.Violation("caller", "C09/caller/"+d[0]+"/"+cx[0], w, fmt.Sprintf("%s gives %s, want %s", text, r, want))
+				} else if dp.Data != 0 || dp.Scope != 1 || dp.Addr != 0 {
+					c.Violation("not-at-rest", "C09/caller-not-at-rest/"+d[0], w, fmt.Sprintf("after %s: data=%d scope=%d addr=%d", text, dp.Data, dp.Scope, dp.Addr))
+				}
+				c.Outcome("caller|" + k.name + "|" + cx[0] + "|" + d[0] + "|" + r.Short())
+			}
+		}
+	}
+}
+
 func init() {
 	engine.Register(&engine.Check{
 		ID:    "C09",
 		Level: "exploration",
 		Rule: "every composition of tail contexts {cond default arm, cond first arm, begin last, let, letseq, newScope, and, or, let shadowing the parameter} to nesting depth 2 (thorough 3, the depth-3 nests crossed with every third body kind) x 17 body kinds " +
 			"(plain, local def, closure over parameter/local, mutating closure, helper call, variadic, lazy parameter, traced argument order): transparency vs the reference evaluator for depths 0,1,2,3,10; " +
-			"stack high-water marks (sampled in a pre-call hook) equal for depths 10,60,300 (thorough: 10,100,1000 and 100000 for the accumulating kinds); distinct_nontrivial = distinct (shape, depth, high-water, value) tuples",
+			"stack high-water marks (sampled in a pre-call hook) equal for depths 10,60,300 (thorough: 10,100,1000 and 100000 for the accumulating kinds); the accumulating kinds declared by defn, by the typed (func ...) form (with and without return) and by a defn inside a function, under 10 tail contexts, called from three callers whose parameters and locals have the callee's names (closed-form value, stacks at rest); distinct_nontrivial = distinct (shape, depth, high-water, value) tuples",
 		Assumptions: []string{
 			"R1 has no tail-call optimisation and is the transparency oracle",
 			"high-water marks are sampled at every function/builtin call (pre-call hook) through the verif accessor VerifDepths",
@@ -363,9 +404,17 @@ func init() {
 					}
 				}
 			})
+			c09callers(c, "")
 			c.Note("bound", fmt.Sprintf("tail-context nesting depth %d, %d body kinds", depth, len(kinds)))
 		},
 		Replay: func(c *engine.Ctx, w string) {
+			if strings.HasPrefix(w, "CALLER|") {
+				c09callers(c, w)
+				for i := range c.Viol {
+					c.Viol[i].Key = "*"
+				}
+				return
+			}
 			// a witness is the program text; classify it again through both oracles
 			_, forms := parseWitness(w)
 			key := "replay"
